@@ -1,2 +1,142 @@
-(* C07 -- statements only. *)
-From UP Require Import Base.Chars Model.Uri.
+(* C07 -- URIs produced by the library keep their meaning when written and read back.
+   Statements only; proofs in Proofs/RereadProofs.v (this part) and in the per-operation files.
+
+   STRUCTURE.  The property has two halves.
+   (1) This part, independent of any operation: an object that satisfies [produced_wf]
+       (Spec/Reread.v: every component consists of the characters of its grammar rule, the host
+       fields describe one kind of host and exclude the absolute-path flag, user info and port only
+       with a host, and the path text does not begin with "//" without a host nor has ":" in its first
+       segment without scheme and host) is written by uriToString ([to_text], Model/Recompose.v) as a
+       text that
+         - is a URI reference of RFC 3986                                   C07_text_valid
+         - is split by RFC 3986 (Spec/Split.v) into the same meaning         C07_text_splits
+         - is accepted by the parser, and the parsed object has the same
+           meaning ([same_meaning]: scheme, user info, host, port, path text,
+           query, fragment)                                                 C07_reread
+       and the two ambiguity clauses of [produced_wf] cannot be dropped: an object violating one of
+       them (and otherwise as harmless as can be) is never read back with the same meaning
+                                                                            C07_ambiguity_necessary_dslash
+                                                                            C07_ambiguity_necessary_colon
+       These two justify the carve-outs made for known defects in part (2): where an operation
+       produces such an object the property does fail for it.
+   (2) Per operation (parse, add-base, remove-base, normalize, make-owner): the object returned
+       satisfies [produced_wf] whenever the arguments do.  Those theorems are appended below by the
+       files that prove them.
+
+   [produced_wf] is decidable: Proofs/RereadWfb.v [produced_wfb], [produced_wfb_spec]; the examples at
+   the end use it to show that the hypotheses are satisfiable (every host kind, every path shape). *)
+From Coq Require Import List NArith Bool String.
+From UP Require Spec.Rfc3986.
+From UP Require Import Base.Chars Base.Regex Model.Uri Model.Parse Model.Recompose
+  Spec.Split Spec.Unparse Spec.Reread Proofs.RereadWfb Proofs.RereadProofs.
+From UP Require Proofs.ResolveProofs.
+Import ListNotations.
+Local Open Scope N_scope.
+
+(* the text written for a well-formed object is a URI reference *)
+Theorem C07_text_valid : forall u, produced_wf u -> matches Rfc3986.URI_reference (to_text u).
+Proof. exact produced_text_valid. Qed.
+Print Assumptions C07_text_valid.
+
+(* the components RFC 3986 assigns to that text are the object's *)
+Theorem C07_text_splits : forall u, produced_wf u -> same_meaning u (split_spec (to_text u)).
+Proof. exact produced_text_splits. Qed.
+Print Assumptions C07_text_splits.
+
+(* uriParseSingleUri accepts that text, and the object it builds has the same meaning *)
+Theorem C07_reread : forall u, produced_wf u ->
+  exists v, parse (to_text u) = POk v /\ same_meaning u v.
+Proof. exact produced_reread. Qed.
+Print Assumptions C07_reread.
+
+(* no host, but the path text begins with "//": what is read back has an authority -- neither the
+   RFC splitting nor any parse result has the meaning of the object *)
+Theorem C07_ambiguity_necessary_dslash : forall u,
+  opt_ok scheme_ok (scheme u) -> is_host_set u = false ->
+  head_is 47 (path_text u) && head_is 47 (tl (path_text u)) = true ->
+  ~ same_meaning u (split_spec (to_text u))
+  /\ forall v, parse (to_text u) = POk v -> ~ same_meaning u v.
+Proof. exact dslash_necessary. Qed.
+Print Assumptions C07_ambiguity_necessary_dslash.
+
+(* no scheme, no host, ":" in the first segment of the path text: the text is either no URI
+   reference at all ("1:b") or read back with a scheme ("a:b") *)
+Theorem C07_ambiguity_necessary_colon : forall u,
+  scheme u = None -> is_host_set u = false -> Forall (text_ok is_pchar) (pathSegs u) ->
+  In 58 (fst (span_until [47] (path_text u))) ->
+  ~ (matches Rfc3986.URI_reference (to_text u) /\ same_meaning u (split_spec (to_text u)))
+  /\ forall v, parse (to_text u) = POk v -> ~ same_meaning u v.
+Proof. exact colon_necessary. Qed.
+Print Assumptions C07_ambiguity_necessary_colon.
+
+(* ---- non-vacuity ---------------------------------------------------------------------------- *)
+Local Open Scope string_scope.
+Notation txt := ResolveProofs.txt.
+
+Definition C07_of_parse (s : string) : uri := match parse (txt s) with POk u => u | _ => empty_uri end.
+Definition C07_obj sc ui h i4 i6 fu po ps q f ab := mkUri sc ui h i4 i6 fu po ps q f ab false.
+Definition C07_bytes : list N := [32; 1; 13; 184; 0; 0; 0; 0; 0; 0; 0; 0; 0; 0; 255; 1].
+
+(* parsed objects and hand-made ones: IPv4 / IPv6 / IPvFuture / registered-name hosts (among them the
+   name "1.2.3.4" without octets and the empty host with a port), an IPv6 object whose host text is
+   not what is written, paths with a leading empty segment but no absolute-path flag, a lone empty
+   segment, scheme only, empty but present query and fragment *)
+Definition C07_samples : list uri := [
+  C07_of_parse "http://u:p@1.2.3.4:80/a/b?q#f";
+  C07_of_parse "//[::1]/x";
+  C07_of_parse "//[2001:db8::1.2.3.4]:1";
+  C07_of_parse "s://[v1F.a:b]/";
+  C07_of_parse "a:b";
+  C07_of_parse "s:";
+  C07_of_parse "?#";
+  C07_of_parse "//:80";
+  C07_of_parse "/a//b/";
+  C07_of_parse "./a:b";
+  C07_of_parse "//h/";
+  C07_of_parse "";
+  C07_obj None None (Some (txt "1.2.3.4")) None None None None [] None None false;
+  C07_obj None None (Some (txt "1.2.3.4")) (Some [1; 2; 3; 4]%N) None None None [txt "a"] None None false;
+  C07_obj (Some (txt "s")) (Some (txt "u")) (Some (txt "whatever")) None (Some C07_bytes) None (Some (txt ""))
+          [txt ""; txt ""] (Some (txt "")) (Some (txt "")) false;
+  C07_obj None None (Some (txt "vA.b")) None None (Some (txt "vA.b")) None [] None None false;
+  C07_obj None None (Some (txt "")) None None None (Some (txt "8")) [] None None false;
+  C07_obj None None None None None None None [txt ""; txt "b"] None None false;
+  C07_obj None None None None None None None [txt ""] None None false;
+  C07_obj (Some (txt "s")) None None None None None None [txt ""] None None false;
+  C07_obj (Some (txt "s")) None None None None None None [txt "a:b"; txt ""] None None true;
+  C07_obj None None None None None None None [] (Some (txt "")) (Some (txt "")) false;
+  C07_obj None None None None None None None [txt "a%41"; txt "c:d"] None None false;
+  C07_obj None None None None None None None [txt ""; txt ""] None None false;
+  C07_obj (Some (txt "s")) None (Some (txt "%41b")) None None None None [txt ""] None None false ].
+
+Example C07_ex_wf : Forall produced_wf C07_samples.
+Proof.
+  apply Forall_forall. intros u Hu. apply produced_wfb_sound. revert u Hu. apply forallb_forall.
+  vm_compute. reflexivity.
+Qed.
+
+(* ... and, by computation, what the three theorems say about them *)
+Example C07_ex_computed :
+  forallb (fun u => matchb Rfc3986.URI_reference (to_text u)
+                    && same_meaningb u (split_spec (to_text u))
+                    && match parse (to_text u) with POk v => same_meaningb u v | _ => false end)
+          C07_samples = true.
+Proof. vm_compute. reflexivity. Qed.
+
+(* the hypotheses of the two necessity theorems: segments ["", "", "b"] without flag and host
+   (text "//b"), and the segment "a:b" first in a relative reference *)
+Example C07_ex_dslash :
+  let u := C07_obj None None None None None None None [txt ""; txt ""; txt "b"] None None false in
+  opt_ok scheme_ok (scheme u) /\ is_host_set u = false
+  /\ head_is 47 (path_text u) && head_is 47 (tl (path_text u)) = true.
+Proof. vm_compute. auto. Qed.
+
+Example C07_ex_colon :
+  let u := C07_obj None None None None None None None [txt "a:b"] None None false in
+  scheme u = None /\ is_host_set u = false /\ Forall (text_ok is_pchar) (pathSegs u)
+  /\ In 58%N (fst (span_until [47%N] (path_text u))).
+Proof.
+  cbv zeta. split; [reflexivity|]. split; [reflexivity|]. split.
+  - repeat constructor.
+  - vm_compute. auto.
+Qed.
